@@ -59,7 +59,22 @@ U3 == ("a" :> Body(FALSE, <<TArr(0, A), TPtr(A, 0)>>)) @@
       ("x y" :> Body(TRUE, <<I8, TVec(FALSE, 2, TPtr(A, 0))>>)) @@
       ("b" :> Body(FALSE, <<A, TNamed("x y"), TFloat("x86_fp80")>>))
 
-Universes == [u1 |-> U1, u2 |-> U2, u3 |-> U3]
+\* u4: names that the printer has to escape, in PAIRS that a lossy escaper conflates: a name
+\*     holding a literal backslash followed by two hexadecimal digits next to the name holding
+\*     the byte those digits denote (tab, the 0x01 "do not mangle" prefix, the backslash itself),
+\*     a quote, a name starting with a digit.  Type names are arbitrary byte strings in LLVM
+\*     (`%"a\5C09b"` is the first of them); identity is by name, so every two of these are
+\*     different types and so are the pointers / functions / structs built over them
+\*     (D1, Variants "name"), in memory and after print + parse.
+U4 == ("a\\09b" :> Body(FALSE, <<I32, TPtr(TNamed("a\tb"), 0)>>)) @@
+      ("a\tb" :> Body(FALSE, <<I32, TPtr(TNamed("a\\09b"), 0)>>)) @@
+      ("x\\y" :> Body(FALSE, <<I8>>)) @@
+      ("x\\5Cy" :> Body(FALSE, <<I8>>)) @@
+      ("\\01_node" :> Body(FALSE, <<I32, TPtr(TNamed("\\01_node"), 0)>>)) @@
+      ("q\"r" :> Opaque) @@
+      ("0a" :> Body(TRUE, <<>>))
+
+Universes == [u1 |-> U1, u2 |-> U2, u3 |-> U3, u4 |-> U4]
 
 ----------------------------------------------------------------------------
 (* Generated terms *)
